@@ -47,7 +47,7 @@ fam_constrain(struct rspec *r, int ckind)
     r->lo = r->hi = r->def = vu_zero();
     switch (t) {
     case REG_TYPE_UINT16: r->lo = vu_int(t, 0x0100); r->hi = vu_int(t, 0x7f00); break;
-    case REG_TYPE_SINT16: r->lo = vu_int(t, -0x100); r->hi = vu_int(t, 0x100); break;
+    case REG_TYPE_SINT16: r->lo = vu_int(t, -0x100); r->hi = vu_int(t, -0x10); break; /* both bounds negative: a signed bound read through the unsigned member shows */
     case REG_TYPE_UINT32: r->lo = vu_int(t, 0x00010002); r->hi = vu_int(t, 0x7ffe8001); break;
     case REG_TYPE_UINT64: r->lo = vu_int(t, 0x0000000100020003ll); r->hi = vu_int(t, 0x7ffe800180028003ll); break;
     case REG_TYPE_FLOAT32: r->lo.f32 = -2.5f; r->hi.f32 = 1000.25f; break;
